@@ -41,9 +41,9 @@ var replayTreeSrc string
 func (e *Engine) treeChecks(id string) []fdResult {
 	type orc struct{ oracle, name, goal string }
 	var list []orc
-	split := orc{"SPLIT", "core.JApiCore/bounded/tree-include-split#1", "every directive subtree (any depth) of the accepted corpus documents moved into an INCLUDEd file, two sibling subtrees moved into two files, and the children of a directive moved - in an explicit ( ) context that begins the included file - into an INCLUDEd file (about 3000 splits): same catalog bytes"}
+	split := orc{"SPLIT", "core.JApiCore/bounded/tree-include-split#1", "every directive subtree (any depth) of the accepted corpus documents moved into an INCLUDEd file - with and without a final line break -, two sibling subtrees moved into two files, and the children of a directive moved - in an explicit ( ) context that begins the included file - into an INCLUDEd file (about 15 000 splits): same catalog bytes"}
 	parens := orc{"PARENS", "core.JApiCore/bounded/tree-explicit-context#1", "the children of every directive with an implicit context put into an explicit ( ) context (about 540 rewrites): same catalog bytes"}
-	layout := orc{"LAYOUT", "core.JApiCore/bounded/tree-layout#1", "blank lines, '#' comments and '###' block comments in front of every directive line, blanks appended to directive lines, two more columns of indentation (about 10 000 rewrites): same catalog bytes"}
+	layout := orc{"LAYOUT", "core.JApiCore/bounded/tree-layout#1", "blank lines, '#', '##' and '###' comments in front of every directive line, blanks appended to directive lines, two more columns of indentation (about 20 000 rewrites): same catalog bytes"}
 	splitrej := orc{"SPLITREJ", "core.JApiCore/bounded/tree-include-split-rejected#1", "every top-level directive subtree of the corpus documents that a rule check rejects (4 built-in ones and the err_*.jst documents of /repo/testdata that pass the scanning phase; about 240 splits) moved into an INCLUDEd file: the project is rejected with the same message at the corresponding line of the file that now holds the directive"}
 	switch id {
 	case "C09":
@@ -52,6 +52,9 @@ func (e *Engine) treeChecks(id string) []fdResult {
 		list = []orc{parens, split}
 	case "C08":
 		list = []orc{parens, layout}
+	case "C12":
+		// a directive that an inserted comment line swallows is missing from the lexeme stream: same oracle, under C12
+		list = []orc{layout}
 	}
 	var res []fdResult
 	for _, o := range list {
@@ -132,7 +135,7 @@ func (e *Engine) corpusChecks(id, tier string) []fdResult {
 		"C10": {"kit.NewJApiFromFile/bounded/corpus-paste-expansion#1", "replacing every PASTE of a corpus document by the re-indented body of its MACRO and deleting the MACRO blocks gives the same catalog bytes; undefined and pasted cyclic macros are errors"},
 		"C19": {"kit.NewJApiFromFile/bounded/corpus-banned-kinds#1", "for every accepted corpus document and each of the 31 directive kinds: banning a kind that occurs is rejected with the not-allowed error on an occurrence; banning a kind that does not occur gives the same catalog bytes"},
 	}
-	goals["C14"] = [2]string{"kit.NewJapi/bounded/include-arrangements#1", "52 INCLUDE arrangements on disk (INCLUDE in 11 positions where a directive may start - root, URL, method, response, Request, inside their parentheses, after a Description text, in a MACRO body - with an existing file and with a refused parameter; parameters with '..', '.', an absolute path, a backslash or nothing are refused at the INCLUDE although the file they name exists; a missing file and a directory are errors at the INCLUDE; cycles not through the root are recursion errors; several files, one file several times and names relative to the including file are accepted and resolved against the right directory)"}
+	goals["C14"] = [2]string{"kit.NewJapi/bounded/include-arrangements#1", "54 INCLUDE arrangements on disk (INCLUDE in 11 positions where a directive may start - root, URL, method, response, Request, inside their parentheses, after a Description text, in a MACRO body - with an existing file and with a refused parameter; parameters with '..', '.', an absolute path, a backslash or nothing are refused at the INCLUDE although the file they name exists; a missing file and a directory are errors at the INCLUDE; cycles not through the root are recursion errors; several files, one file several times and names relative to the including file are accepted and resolved against the right directory)"}
 	g, ok := goals[id]
 	if !ok {
 		return nil
